@@ -22,15 +22,15 @@ PROP = dict(
                  "a NaN result is required to be a NaN; its sign and payload are not compared",
                  "integer operands for which the scalar operation is undefined (signed overflow, division by zero, -MIN) are outside the property and are not executed",
                  "text is observed in the classic \"C\" locale with stream width 0; unsigned char elements are checked for the structure \"(c c c)\" only",
-                 "matrix tokens are compared numerically to one unit of the last printed digit (the operator chooses scientific/showpoint itself), not as strings",
+                 "matrix tokens are compared numerically to 4 units of the last printed digit (8x the half-unit error of a correctly rounded conversion) (the operator chooses scientific/showpoint itself), not as strings",
                  "gcc on x86-64; IMATH_FOREIGN_VECTOR_INTEROP enabled (the default for this compiler)"],
     technique=("generated cross product of (type, element type, spelling) from per-type tables of lambdas, executed on class-directed random operand sets and judged slot by slot "
                "against the scalar operator; directed single-slot perturbation for the comparisons; write-one-path/read-all-paths for accessors; "
                "token-level comparison of stream output; the same binary under ASan/UBSan on a 5 % sample (stack objects, accessors driven over exactly 0..N-1)"),
-    level_text=("Every (type, element type, spelling) combination named by the statement is instantiated and executed - 610 operator spellings, 2,627 result slots - on 10^5 (quick) / 10^7 (thorough) operand "
+    level_text=("Every (type, element type, spelling) combination named by the statement is instantiated and executed - 610 operator spellings, 2,627 result slots - on 3*10^5 (quick) / 2*10^7 (thorough) operand "
                 "sets per instantiation drawn from the boundary classes of the quantifier, with exact (bitwise) comparison; the code paths are straight-line, so a slot typo "
                 "is exposed by every operand set of the distinct-primes class. Operand values are sampled, not enumerated."),
     level_note="operand values are sampled; NaN payloads are not compared; width/fill/locale dependent formatting is not explored; compilers other than gcc are not executed",
-    monitors=[M("c04_aggregates", ["c04_vec.cpp", "c04_color_shear_quat.cpp", "c04_matrix.cpp", "c04_layout.cpp", "c04_text.cpp"],
+    monitors=[M("c04_aggregates", ["c04_vec.cpp", "c04_color_shear_quat.cpp", "c04_matrix.cpp", "c04_layout.cpp", "c04_layout2.cpp", "c04_text.cpp"],
                 san_scale=0.05, san_scale_thorough=0.01)],
 )
